@@ -5,6 +5,7 @@
 //!
 //! A reply line is `<observable>` optionally followed by `\t#FAIL:<key>:<explanation>` when the
 //! implementation-side property oracle fails for that request.
+mod c01;
 mod c10;
 mod c11;
 mod c12;
@@ -24,6 +25,7 @@ fn run_line(prop: &str, line: &str) -> String {
   }
   let args = &toks[1..];
   let r = std::panic::catch_unwind(|| match prop {
+    "C01" => c01::run(args),
     "C10" => c10::run(args),
     "C11" => c11::run(args),
     "C12" => c12::run(args),
@@ -53,6 +55,7 @@ fn main() {
       let seed: u64 = args.get(4).and_then(|s| s.parse().ok()).unwrap_or(0);
       let thorough = tier == "thorough";
       match prop {
+        "C01" => c01::gen(thorough, seed, &mut out),
         "C10" => c10::gen(thorough, seed, &mut out),
         "C11" => c11::gen(thorough, seed, &mut out),
         "C12" => c12::gen(thorough, seed, &mut out),
